@@ -27,6 +27,7 @@ def gen_cases(sch, tier, rng):
         cases.append(p_hist.mk_case(sch, "r%d" % i, h, "random"))
     return cases
 
+EXTRA_PROPERTY_FILES = ("Properties_exporter",)   # the bodies of the exporter's functions as they are now (translator/exporter.py) against what the model was written after
 def run(ctx):
     sch = schema.load(ctx["mdl"])
     cases = gen_cases(sch, ctx["tier"], ctx["rng"])
